@@ -64,6 +64,8 @@ pub fn generate(check: &str, tier: &str, seed: u64, run: u64) -> Case {
         "C07" if run % 12 == 4 => crate::gen::gen_rw_overlap(&mut rng),
         "C01" if run % 24 == 4 => crate::gen::gen_rw_overlap(&mut rng),
         "C05" if run % 12 == 3 => crate::gen::gen_wait_loops(&mut rng),
+        "C05" if run % 24 == 7 => crate::gen::gen_yield_after_lock(&mut rng),
+        "C07" if run % 24 == 7 => crate::gen::gen_yield_after_lock(&mut rng),
         "C03" if run % 12 == 5 => crate::gen::gen_many_stores_mp(&mut rng, false),
         "C04" if run % 12 == 5 => crate::gen::gen_many_stores_mp(&mut rng, true),
         "C02" | "C03" => gen_litmus_any(&mut rng, thorough),
